@@ -73,6 +73,16 @@ Definition check_c05srv (c : svcase) : list nat :=
       end
   end.
 
+(* two connections on one Server (connection B is outside the model): the predicates on this connection's history, and
+   connection B's handlers received exactly, in order, the messages delivered on connection B (reason 6) *)
+Definition check_c05srv2 (c : svcase) (bsent brecv : list Z) : list nat :=
+  match c with
+  | CSrv acts observed =>
+      nodup Nat.eq_dec ((if stream_order_ok acts observed && recv_order_ok acts observed then [] else [6%nat])
+                        ++ (if unary_pairing_ok acts observed then [] else [7%nat])
+                        ++ (if list_eqb Z.eqb bsent brecv then [] else [6%nat]))
+  end.
+
 (* C14, server half: at the end of the conversation every handler that was started has returned; then nothing is held
    for them: registry empty, no goroutine beyond the connection's own (writer + workers while it is served) *)
 Definition invoked_h (l : list sev) : list nat := filter_map (fun e => match e with SvInvoke h _ _ _ _ _ => Some h | _ => None end) l.
